@@ -25,6 +25,7 @@ import (
 	"mellium.im/xmpp/forward"
 	"mellium.im/xmpp/history"
 	"mellium.im/xmpp/jid"
+	"mellium.im/xmpp/muc"
 	"mellium.im/xmpp/ping"
 	"mellium.im/xmpp/pubsub"
 	"mellium.im/xmpp/roster"
@@ -40,7 +41,8 @@ type Case struct {
 	Kind    string   `json:"kind"` // serve | helper | func
 	Tap     bool     `json:"tap,omitempty"`
 	Setup   []string `json:"setup,omitempty"`
-	Bare    bool     `json:"bare,omitempty"` // the session's local address is a bare JID
+	Bare    bool     `json:"bare,omitempty"`  // the session's local address is a bare JID
+	NilCB   bool     `json:"nilcb,omitempty"` // handlers constructed with their optional callbacks nil
 	Seq     []string `json:"seq,omitempty"`
 	End     string   `json:"end,omitempty"` // close | eof
 	Helper  string   `json:"helper,omitempty"`
@@ -218,7 +220,7 @@ func (w *world) setup(ops []string) {
 
 func runServe(c Case) Obs {
 	var o Obs
-	w, err := newWorld(c.Tap, c.Bare)
+	w, err := newWorld(c.Tap, c.Bare, c.NilCB)
 	if err != nil {
 		o.Class = "panic"
 		o.fail("C09/harness/setup", err.Error())
@@ -480,6 +482,21 @@ var helpers = map[string]helperFn{
 		err = it.Err()
 		return both(err, it.Close())
 	},
+	// fetch a form from the peer, then submit it (decoded form re-encoded by Submit)
+	"muc-config": func(ctx context.Context, w *world) error {
+		f, err := muc.GetConfig(ctx, roomJID.Bare(), w.sess)
+		if err != nil {
+			return err
+		}
+		return muc.SetConfig(ctx, roomJID.Bare(), f, w.sess)
+	},
+	"pubsub-config": func(ctx context.Context, w *world) error {
+		f, err := pubsub.GetConfig(ctx, w.sess, "princely_musings")
+		if err != nil {
+			return err
+		}
+		return pubsub.SetConfig(ctx, w.sess, "princely_musings", f)
+	},
 	"ibb-open": func(ctx context.Context, w *world) error {
 		_, err := w.ibbh.Open(ctx, w.sess, remoteJID)
 		return err
@@ -596,7 +613,7 @@ var helperComp = map[string]string{
 	"disco-items": "QItems", "commands-fetch": "QItems", "commands-exec": "QExecute",
 	"roster-fetch": "QRoster", "roster-set": "QSendOnly", "blocklist-fetch": "QBlocklist", "blocklist-add": "QSendOnly",
 	"pubsub-fetch": "QPubsub", "bookmarks-fetch": "QBookmarks", "unmarshal-struct": "(QUnmarshal false)", "iter-plain": "QIterPlain",
-	"ibb-open": "QSendOnly",
+	"ibb-open": "QSendOnly", "muc-config": "QSendOnly", "pubsub-config": "QSendOnly",
 }
 
 // ---- token-level library functions ----
